@@ -20,7 +20,7 @@ import (
 
 var benignFaults = []string{"resegment", "dribble", "random-cuts", "latency", "jitter", "short-read", "finite-window", "starved-node", "deadline-retry", "preempt", "short-reads-from-rand"}
 var benignReach = []string{"A1-proto-mismatch", "A2-version", "A3-no-suite", "A4-ecdhe-gm", "A5-missing-certs", "A6-server-verify", "A7-client-auth", "A8-callback-error", "A9-complete",
-	"gm-cbc", "gm-gcm", "tls10", "tls11", "tls12", "client-cert-sent", "callbacks-cert", "getconfigforclient", "payload>=16k", "payload-0", "stdlib-client", "stdlib-server", "wire-decoded", "vhost-second-name", "timeout-retried", "auto-gm", "auto-tls", "wire-decoded-tls12", "alpn-negotiated", "client-chain-with-intermediate", "certificate-message-over-one-record"}
+	"gm-cbc", "gm-gcm", "tls10", "tls11", "tls12", "client-cert-sent", "callbacks-cert", "getconfigforclient", "payload>=16k", "payload-0", "stdlib-client", "stdlib-server", "wire-decoded", "vhost-second-name", "timeout-retried", "auto-gm", "auto-tls", "wire-decoded-tls12", "alpn-negotiated", "client-chain-with-intermediate", "certificate-message-over-one-record", "default-pair-probed-before-and-after"}
 
 func init() {
 	register(Family{Name: "tls-benign", Prop: "C06", ID: 601, Weight: 1, FaultNames: benignFaults, ReachNames: benignReach, Run: runTLSBenign})
@@ -820,6 +820,14 @@ func runTLSBenign(c *simkit.Choice, r *simkit.Rec) {
 		r.Fault(idx(benignFaults, "short-reads-from-rand"))
 	}
 
+	// history independence: what two endpoints with default settings negotiate must
+	// not depend on which sessions this process has served before. The same default
+	// pair handshakes before and after the session under test (gmtls ends only).
+	probe := p.Peer == peerGmtls && c.Bool(1, 3, simkit.LScen)
+	probeBefore := ""
+	if probe {
+		probeBefore = defaultPairProbe(c)
+	}
 	s := simkit.NewSim(c, pol, 4000000)
 	a, b := s.NewConnPair("cli", "srv", netAB, netBA)
 	var cr, sr endRes
@@ -869,6 +877,13 @@ func runTLSBenign(c *simkit.Choice, r *simkit.Rec) {
 	s.Run()
 	r.FromSim(s)
 	r.Nontrivial = true
+	if probe {
+		r.Reach(idx(benignReach, "default-pair-probed-before-and-after"))
+		if after := defaultPairProbe(c); after != probeBefore {
+			r.Violate("history-dependent", "default-configurations", fmt.Sprintf("two endpoints with default settings negotiated %s before this session and %s after it [%s]", probeBefore, after, p.String()))
+			return
+		}
+	}
 
 	// environment behaviour that actually happened
 	countNet := func(n simkit.NetCfg, pp *simkit.Pipe) {
@@ -1360,4 +1375,40 @@ func stdServerRun(p *benignParams, raw *simkit.Conn, ent *simkit.Stream, plan *a
 		return
 	}
 	stdApp(conn, plan, e)
+}
+
+// defaultPairProbe runs one TLS and one GMSSL handshake between endpoints that
+// leave versions and cipher suites to the library, in a simulation of their own,
+// and reports what they negotiated.
+func defaultPairProbe(c *simkit.Choice) string {
+	out := ""
+	for _, gm := range []bool{false, true} {
+		s := simkit.NewSim(c, simkit.Policy{StarveNode: -1}, 2000000)
+		a, b := s.NewConnPair("pc", "ps", simkit.NetCfg{}, simkit.NetCfg{})
+		ccfg := &gmtls.Config{Rand: simkit.NewStream(901), Time: simTime(s, 0), ServerName: "server.sim", RootCAs: pki.Pool("rsaCA")}
+		scfg := &gmtls.Config{Rand: simkit.NewStream(903), Time: simTime(s, 0), Certificates: []gmtls.Certificate{pki.GMStd("tlsp256")}, SessionTicketsDisabled: true}
+		if gm {
+			ccfg.GMSupport, scfg.GMSupport = gmtls.NewGMSupport(), gmtls.NewGMSupport()
+			ccfg.RootCAs = pki.Pool("caA")
+			scfg.Certificates = gmServerCerts("srv-sign", "srv-enc")
+		}
+		var cst gmtls.ConnectionState
+		var cerr, serr error
+		s.Spawn("pc", 0, func() {
+			conn := gmtls.Client(a, ccfg)
+			cerr = conn.Handshake()
+			cst = conn.ConnectionState()
+			conn.Close()
+		})
+		s.Spawn("ps", 1, func() {
+			conn := gmtls.Server(b, scfg)
+			serr = conn.Handshake()
+			buf := make([]byte, 8)
+			conn.Read(buf)
+			conn.Close()
+		})
+		s.Run()
+		out += fmt.Sprintf("[gm=%v version %04x suite %04x client=%v server=%v]", gm, cst.Version, cst.CipherSuite, cerr, serr)
+	}
+	return out
 }
